@@ -1121,6 +1121,14 @@ impl<'cx> TyGenContext<'_, 'cx> {
 
     /// Generates a Dart helper class for a slice type.
     fn gen_slice(&mut self, slice: &hir::Slice) -> &'static str {
+        // `DiplomatByte` slices share the `_SliceUint8` helper of `u8` slices (they are converted with
+        // `asUint8List()._uint8AllocIn`), so the helper is always generated for `u8`
+        if let hir::Slice::Primitive(b, hir::PrimitiveType::Byte) = slice {
+            return self.gen_slice(&hir::Slice::Primitive(
+                *b,
+                hir::PrimitiveType::Int(hir::IntType::U8),
+            ));
+        }
         let slice_ty = self.formatter.fmt_slice_type(slice);
 
         if self.helper_classes.contains_key(slice_ty) {
